@@ -77,7 +77,7 @@ fn strategy(tier: Tier, index: u64) -> BoxedStrategy<C07Case> {
     let k = k_sets(tier);
     let sets = proptest::collection::vec(params_strategy(BufProfile::Any, true, 65536), k..=k);
     let small = proptest::sample::select(vec![1u64, 2, 3, 4, 5, 7]);
-    let big = proptest::sample::select(vec![128u64, 129, 256, 1000, 4096, 65536]);
+    let big = proptest::sample::select(vec![128u64, 129, 256, 1000, 4096, 8192, 8193, 10000, 16383, 16384, 16385, 32768, 65536]);
     (history_strategy(base_cfg(tier, index)), sets, small, big)
         .prop_map(|(h, mut sets, small, big)| {
             // always one table < 8 buckets, one >= 128, one eviction-forcing fixed buffer
